@@ -21,6 +21,7 @@ import Tickit.Driver.Sgr
       closed or lies below a closed one — `tickit_window_close(3)`);
     * nothing the application still references is freed (pens, strings, buffers, the terminal);
     * a copy-out call leaves the byte behind a zero-length buffer alone;
+    * no byte the terminal is sent by `tickit_renderbuffer_flush_to_term` comes from memory nobody has written (`fresh=0`);
     * at `end`, after every reference was dropped, every object is gone and LeakSanitizer finds nothing.
 -/
 namespace Tickit.Driver.LifeEngine
@@ -269,6 +270,9 @@ def specCheck (d : DSt) (stAfter : St) (instRefs : Nat) (xRefs : List Nat) (op :
         | _ => false)
       if wild then "a mouse handler was handed a position read from uninitialised memory"
       else if (impl.splitOn "canary-overwritten").length > 1 then "copy-out call wrote behind a zero-length buffer"
+      else if (match impl.splitOn " fresh=" with
+          | _ :: rest :: _ => !(rest.startsWith "0 ")
+          | _ => false) then "bytes of memory nobody has written were sent to the terminal as text"
       else match op with
         | .«end» =>
           if (impl.splitOn "leak=1").length > 1 then "allocations remain after the last reference was dropped (LeakSanitizer)"
